@@ -28,7 +28,7 @@
 (*  (S5) Stop ends the handler: no callback after Wait returns, every      *)
 (*       listener closed, no goroutine left.                               *)
 (*       -> S5Listeners, S5Wait, S5Late, S5Census                          *)
-(*  (S6) DynamicBanScore: see BanScore.tla.                                *)
+(*  (S6) DynamicBanScore: not specified yet (limit of this engine).         *)
 (*  (+)  MaxInbound: never more accepted inbound connections open than the *)
 (*       limit; a slot is released exactly once.  -> InboundLimit          *)
 (*                                                                         *)
@@ -128,13 +128,14 @@ ConnNo(tok, nd) == tok * 10 + nd         \* number of the connection the nd-th D
 
 Req(id0, perm0, auto0, pc0, tok0) ==
   [id |-> id0, perm |-> perm0, auto |-> auto0, st |-> "pending", pc |-> pc0,
-   retry |-> 0, delay |-> 0, cn |-> 0, dc |-> 0, tok |-> tok0, nd |-> 0, trg |-> FALSE]
+   retry |-> 0, delay |-> 0, cn |-> 0, dc |-> 0, tok |-> tok0, nd |-> 0, trg |-> FALSE, rep |-> FALSE]
    \* id     ConnReq.id (0: not assigned)      st     ConnReq.state (zero value: ConnPending)
    \* retry  ConnReq.retryCount                delay  duration of the armed retry timer
    \* cn     ConnReq.conn (number of the connection, 0: nil)
    \* dc     connection the Connect goroutine got from Dial and is handing over
    \* tok    address token (Addr)              nd     Dial calls made for the request
    \* trg    a Disconnect with WithTriggerReconnect retried the request
+   \* rep    a replacement (Remove; NewConnReq) was started for the request
 
 Active(p) == p \in {"reg", "regw", "regd", "gna", "cstart", "dial", "indial", "sendok", "sendfail", "xrm", "xsend"}
 
@@ -187,8 +188,8 @@ HFC(q, r, trig) ==
   ELSE IF scn.gna /\ (FixAuto => q[r].auto) THEN
     LET fa == failedAtt + 1 IN
     IF fa >= MaxFailedAttempts
-      THEN [q |-> [q EXCEPT ![r].pc = "xtimer"], fa |-> fa, e |-> <<"maxfail">>]  \* AfterFunc(RetryDuration, Remove; NewConnReq)
-      ELSE [q |-> [q EXCEPT ![r].pc = "xrm"], fa |-> fa, e |-> NoEv]            \* go { Remove(id); NewConnReq() }
+      THEN [q |-> [q EXCEPT ![r].pc = "xtimer", ![r].rep = TRUE], fa |-> fa, e |-> <<"maxfail">>]  \* AfterFunc(RetryDuration, Remove; NewConnReq)
+      ELSE [q |-> [q EXCEPT ![r].pc = "xrm", ![r].rep = TRUE], fa |-> fa, e |-> NoEv]            \* go { Remove(id); NewConnReq() }
   ELSE [q |-> q, fa |-> failedAtt, e |-> NoEv]
 
 AutoHeld(q, p, c) == {r \in DOMAIN q : q[r].auto /\ q[r].id \in p \cup c}
@@ -556,6 +557,18 @@ Handler ==
   \/ \E o \in DOMAIN ops : HRecvOp(o)
   \/ HMicro \/ HQuit
 
+\* steps of the manager's goroutines (and of the callers of its methods) that
+\* are not driven by the environment and not by the clock
+Running ==
+  \/ Handler
+  \/ NewStart
+  \/ \E r \in Objs : GiveUp(r) \/ RegDone(r) \/ CStart(r) \/ DialCall(r) \/ XRm(r)
+  \/ \E o \in DOMAIN ops : UChk(o) \/ UGiveUp(o) \/ URet(o)
+  \/ StopFlag \/ StopListener \/ StopQuit \/ StopRet \/ WaitRet
+  \/ \E cb \in cbs : CbStart(cb)
+  \/ \E k \in DOMAIN lst : LLoop(k) \/ LAcceptErr(k) \/ LLimit(k)
+  \/ \E c \in inClosing : InRelease(c)
+
 \* steps of the manager that are not driven by the environment
 Internal ==
   \/ Handler
@@ -629,7 +642,7 @@ S3Backoff == \A r \in Objs : rq[r].pc = "twait" =>
                /\ rq[r].perm \/ rq[r].trg
 S3Grow == [][\A r \in Objs : (r \in DOMAIN rq' /\ rq'[r].pc = "twait" /\ rq[r].pc # "twait")
                                => /\ rq'[r].retry = rq[r].retry + 1
-                                  /\ rq'[r].delay >= Min(rq[r].delay, scn.cap)
+                                  /\ rq'[r].delay >= Min(rq[r].retry * scn.ru, scn.cap)
                                   /\ rq'[r].delay <= scn.cap]_vars
 \* once the handler has processed the Remove / cancel no new attempt starts
 S3NoRetry == [][\A r \in Objs : (rq[r].st \in {"canceled", "disconnected"} /\ rq[r].pc \in {"idle", "twait", "cstart", "xtimer", "xrm", "xsend"})
@@ -638,7 +651,8 @@ S3OneDial == \A r \in Objs : (~rq[r].perm /\ ~rq[r].trg) => rq[r].nd <= 1
 
 \* (S4)
 S4Cancel == \A r \in Objs :        \* a canceled request is never reported; what its dial delivered afterwards is closed
-  (rq[r].st = "canceled" /\ rq[r].pc = "idle" /\ rq[r].dc # 0 /\ rq[r].dc # rq[r].cn /\ ~quit) => rq[r].dc \in closed
+  (rq[r].st = "canceled" /\ rq[r].pc = "idle" /\ rq[r].dc # 0 /\ rq[r].dc # rq[r].cn /\ ~quit
+     /\ ~\E k \in DOMAIN hq : hq[k][1] = "msg" /\ hq[k][2] = "sendok" /\ hq[k][3] = r) => rq[r].dc \in closed
 S4NoReport == [][\A r \in Objs : rq[r].st \in {"canceled", "disconnected"} => \A cb \in cbs' \ cbs : cb[1] # "c" \/ cb[2] # r]_vars
 S4Once  == "S4dup" \notin bad /\ \A x, y \in cbs : (x[1] = y[1] /\ x[3] = y[3]) => x = y
 S4Order == "S4order" \notin bad
